@@ -1,6 +1,8 @@
 package zcnchk
 
 import (
+	"0chain.net/core/common"
+	"0chain.net/chaincore/transaction"
 	"fmt"
 	"testing"
 
@@ -48,11 +50,22 @@ func TestC21_MultisigExecutesOnce(t *testing.T) {
 		nv := rapid.IntRange(8, 30).Draw(t, "votes")
 		nontrivial := false
 		for i := 0; i < nv; i++ {
-			switch rapid.IntRange(0, 11).Draw(t, "clock") {
+			switch rapid.IntRange(0, 12).Draw(t, "clock") {
 			case 0:
 				h.NextBlock(1, int64(simzcn.ProposalLifetime)+5)
 			case 1, 2:
 				h.NextBlock(1, 60)
+			case 7:
+				// move the chain's clock to the very end of a live proposal's lifetime (0..3 s past it)
+				for _, id := range ids {
+					if q := props[id]; q != nil && q.live {
+						if d := q.created + int64(simzcn.ProposalLifetime) - int64(h.Now); d > 0 {
+							h.NextBlock(1, d+int64(rapid.IntRange(0, 3).Draw(t, "pastExpiry")))
+							st.Class("clock_moved_to_the_end_of_a_lifetime")
+							break
+						}
+					}
+				}
 			}
 			pid := ids[rapid.IntRange(0, len(ids)-1).Draw(t, "proposal")]
 			p := props[pid]
@@ -75,12 +88,21 @@ func TestC21_MultisigExecutesOnce(t *testing.T) {
 			var txnOwnerBefore = sim.ViewOf(h.Cur.B).Balance(owner.ID)
 			recvBefore := sim.ViewOf(h.Cur.B).Balance(to)
 			var o sim.Outcome
+			var vtxn *transaction.Transaction
 			if kind == "non-signer" {
 				v := m.NewVote(pid, to, amount, signer, true)
-				o, err = h.Do(m.VoteRaw(h, stranger, v))
+				vtxn = m.VoteRaw(h, stranger, v)
 			} else {
-				o, err = h.Do(m.Vote(h, pid, to, amount, signer, valid))
+				vtxn = m.Vote(h, pid, to, amount, signer, valid)
 			}
+			if sk := rapid.SampledFrom([]int64{0, 0, 0, 1, 5, 60}).Draw(t, "txnDatedEarlier"); sk > 0 {
+				// the sender dates the transaction a little before the block that carries it (any date within the
+				// chain's tolerance is admitted): expiry is a matter of the chain's clock, not of the sender's
+				vtxn.CreationDate -= common.Timestamp(sk)
+				vtxn.Hash = vtxn.ComputeHash()
+				st.Class("vote_dated_before_its_block")
+			}
+			o, err = h.Do(vtxn)
 			if err != nil {
 				t.Fatalf("%s", err.Error())
 			}
